@@ -1,4 +1,5 @@
 import Irismod.Props.C12_Service
+import Irismod.Proofs.ServiceMonitor
 open Irismod Irismod.Sdk Irismod.Service Irismod.ServiceGenesis Irismod.Props.C12.Service Irismod.Proofs.ServiceGenesis
 #print axioms gi_genesis
 #print axioms reach_genesis
@@ -53,3 +54,23 @@ def okS : Except Err State → Option State
 -- withdraw address; after the answer and the expiry the plain round trip is accepted, is a fixpoint, keeps the
 -- registry, and leaves 9stake in the request escrow with no earned-fee entry; the prepare step pays them to A0
 #eval s!"nonvacuous {g1.active == [rid1] && g1.ctxs.length == 1 && (okS (reimport rank0 g1)).isNone && (match prepReimport rank0 g1 with | .ok s => Bank.balOf s.bank "A5" "stake" == 1000 && Bank.balOf s.bank reqAcc "stake" == 0 && Bank.balOf s.bank depAcc "stake" == 150 && s.active.isEmpty && AMap.get? s.owners "A0" == some "A3" && AMap.get? s.wd "A3" == some "A4" && (AMap.get? s.binds ("s1", "A0")).map (·.deposit) == some 100 && (s.ctxs.map (·.2.state)) == [CtxState.paused] && (exportGenesis rank0 s).binds.map (·.1) == [("s1", "A0"), ("s2", "A1")] | .error _ => false) && g2.ctxs.isEmpty && AMap.getD g2.earned ("A0", "stake") 0 == 9 && (match reimport rank0 g2 with | .ok s => s.earned.isEmpty && Bank.balOf s.bank reqAcc "stake" == 9 && (exportGenesis rank0 s).binds == (exportGenesis rank0 g2).binds && (exportGenesis rank0 s).defs == [("s1", "A3"), ("s2", "A3")] | .error _ => false) && (match prepReimport rank0 g2 with | .ok s => Bank.balOf s.bank "A0" "stake" == 9 && Bank.balOf s.bank reqAcc "stake" == 0 | .error _ => false)}"
+-- monitor soundness (Proofs/ServiceMonitor*.lean): on the lines `service export` / `reimport` / `prep_reimport` the clauses `drv-service monitor C12` evaluates report, on a model step, nothing but the recorded findings F-gen-6 / F-gen-14, each exactly on its class; the line invariant holds again on the new chain
+#print axioms Irismod.Proofs.ServiceMonitor.genesis_export_sound
+#print axioms Irismod.Proofs.ServiceMonitor.genesis_reimport_sound
+#print axioms Irismod.Proofs.ServiceMonitor.genesis_prep_reimport_sound
+#print axioms Irismod.Proofs.ServiceMonitor.genesis_prep_reimport_inv
+#print axioms Irismod.Proofs.ServiceMonitor.genesis_reimport_inv
+#print axioms Irismod.Proofs.ServiceMonitor.c12_export_quiet
+#print axioms Irismod.Proofs.ServiceMonitor.c12_reimport_quiet
+#print axioms Irismod.Proofs.ServiceMonitor.sinv_roundTrip
+#print axioms Irismod.Proofs.ServiceMonitor.ownerIdx_apply
+#print axioms Irismod.Proofs.ServiceMonitor.monitor_sound
+#print axioms Irismod.Proofs.ServiceMonitor.line_inv
+-- non-vacuity of the monitor theorems: with the request open (g1) the export line and the reimport line report exactly one failure each, of class F-gen-6; after the answer (g2) the export passes and the reimport reports exactly F-gen-14 (9stake stranded); the prepare line passes on both
+#eval s!"nonvacuous monitor {open Irismod.Spec.ServiceMon Irismod.Proofs.ServiceMonitor in
+  (exportLine "C12" g1 (genesisValid (exportGenesis rank0 g1))).map (·.cls) == ["F-gen-6"] &&
+  ((reimportLine "C12" false ["stake"] {} g1 (reimportOk rank0 g1) true (reimportPost rank0 g1)).2.map (·.cls)) == ["F-gen-6"] &&
+  (exportLine "C12" g2 (genesisValid (exportGenesis rank0 g2))).isEmpty &&
+  ((reimportLine "C12" false ["stake"] {} g2 (reimportOk rank0 g2) true (reimportPost rank0 g2)).2.map (·.cls)) == ["F-gen-14"] &&
+  (reimportLine "C12" true ["stake"] {} g1 (prepReimportOk rank0 g1) true (prepReimportPost rank0 g1)).2.isEmpty &&
+  (reimportLine "C12" true ["stake"] {} g2 (prepReimportOk rank0 g2) true (prepReimportPost rank0 g2)).2.isEmpty}"
